@@ -14,8 +14,13 @@ EVALREPO = '/var/tmp/evalrepo'    # scratch clone, so that /repo itself is never
 def sh(cmd, **kw):
     return subprocess.run(cmd, shell=True, capture_output=True, text=True, **kw)
 
-sh(f'rm -rf {EVALREPO} && git clone -q /repo {EVALREPO}')
+FINAL = '--final' in sys.argv
+if FINAL:
+    sys.argv.remove('--final')
+SUFFIX = os.environ.get('EVAL_SUFFIX', '')
+EVALREPO = EVALREPO + SUFFIX
 names = sys.argv[1:] or sorted(d for d in os.listdir(f'{ROOT}/seeded') if os.path.exists(f'{ROOT}/seeded/{d}/patch.diff'))
+sh(f'rm -rf {EVALREPO} && git clone -q /repo {EVALREPO}')
 for name in names:
     d = f'{ROOT}/seeded/{name}'
     prop = name[:3]
@@ -27,7 +32,12 @@ for name in names:
         print(name, 'patch does not apply'); continue
     results = {}
     try:
-        for chk in RELATED[prop]:
+        todo = RELATED[prop]
+        if FINAL and os.path.exists(f'{d}/meta.json'):
+            # final pass with the finished machinery: the property's own check plus the checks that reported the change before
+            prev = json.load(open(f'{d}/meta.json'))
+            todo = [prop] + [c for c in prev.get('caught_by', []) if c != prop][:1]
+        for chk in todo:
             t0 = time.time()
             p = sh(f'cd {ROOT} && VERIF_REPO={EVALREPO} timeout 3000 ./check {chk} --tier quick --no-evidence')
             viol = re.findall(r'^VIOLATION .*\n\s+sig=(.*)\n\s+(.*)', p.stdout, re.M)
